@@ -632,9 +632,6 @@ func run(c *vf.Ctx) {
 	}
 
 	n := c.N(1800, 20000)
-	if v := os.Getenv("C14_N"); v != "" { // development only
-		fmt.Sscanf(v, "%d", &n)
-	}
 	specs := systematic()
 	c.Extra("systematic_single_construct_cases", len(specs))
 	for i := 0; len(specs) < n; i++ {
